@@ -62,9 +62,11 @@ class G:
     def node(self):
         r = self.rnd
         k = r.choice(['word'] * 6 + ['fl', 'fl', 'ol', 'sel', 'unk', 'foot', 'same', 'decl', 'item', 'head',
-                                     'sel_in', 'optend']) if self.depth < 3 else 'word'
+                                     'sel_in', 'optend', 'ol_lines', 'ol_lines']) if self.depth < 3 else 'word'
         if k == 'sel' and (self.depth > 0 or self.infoot):
             k = 'word'
+        if k == 'ol_lines' and (self.depth > 0 or self.infoot):
+            k = 'ol'
         if k in ('foot', 'head') and (self.infoot or self.depth > 1):
             k = 'word'
         self.kinds[k] += 1
@@ -133,6 +135,30 @@ class G:
             self.stack.pop()
             self.w('\\end{%s}' % env)
             self.w(' ')
+            self.word()
+        elif k == 'ol_lines':
+            # language commands on lines of their own, several on one line (such lines are removed from the text)
+            l1 = self.other()
+            self.w('\n')
+            hard = r.random() < .3
+            if hard:
+                l0 = self.other()
+                self.w('\\selectlanguage{%s}' % l0)
+                self.stack[-1] = LMAP[l0]
+                l1 = self.other()
+            self.w('\\begin{otherlanguage}{%s}\n' % l1)
+            self.stack.append(LMAP[l1])
+            self.seq(r.randint(1, 4))
+            self.stack.pop()
+            l2 = self.other()
+            self.w('\n\\end{otherlanguage}' + r.choice(['', ' ', '%\n']) + '\\begin{otherlanguage}{%s}\n' % l2)
+            self.stack.append(LMAP[l2])
+            self.seq(r.randint(1, 4))
+            if r.random() < .4:
+                cur = [x for x in LMAP if LMAP[x] != self.stack[-1]]
+                self.w('\n\\foreignlanguage{%s}{}' % r.choice(cur))      # empty insertion alone on its line
+            self.stack.pop()
+            self.w('\n\\end{otherlanguage}\n')
             self.word()
         elif k == 'sel':
             lang = self.other()
@@ -214,7 +240,7 @@ class C12(core.Check):
     level = 'exploration'
     technique = 'runtime monitor: language-stack reference model; unique words identify part, language and position; cross-run conservation'
     rule = ('random trees (depth <= 3) of \\foreignlanguage, otherlanguage(*), \\selectlanguage (top level of a flow and '
-            'directly inside a \\foreignlanguage body), same-language nesting, footnotes, headings, items, unknown and '
+            'directly inside a \\foreignlanguage body), language commands on lines of their own (several per line), same-language nesting, footnotes, headings, items, unknown and '
             'declared macros around unique words; main languages %s, initial language optionally overridden by a babel '
             'package option; thresholds 0..5; clear-cut probes: k = 1..6 foreign words (or a \\selectlanguage) between '
             'two words of a sentence. Judged: each word in exactly one part, labelled with the model language, exact '
@@ -315,7 +341,7 @@ class C12(core.Check):
 
     def quotas(self, tier):
         q = {'docs_multi': 3000, 'probes_joined': 300, 'probes_split': 300}
-        for k in ('fl', 'ol', 'sel', 'same', 'sel_in', 'foot', 'head', 'decl', 'optend'):
+        for k in ('fl', 'ol', 'sel', 'same', 'sel_in', 'foot', 'head', 'decl', 'optend', 'ol_lines'):
             q['kind_' + k] = 200
         return q
 
